@@ -20,7 +20,8 @@ fn canon(code: u8) -> (u8, bool) {
     match code {
         1 | 2 | 3 | 5 | 6 => (0x40, false),
         4 | 9 | 10 => (0x80, true),
-        7 | 8 | 16 | 32 => (0xc0, false),
+        7 | 8 | 16 | 32 | 23 | 40 => (0xc0, false),
+        26 | 29 => (0x80, true),
         17 | 18 => (0xc0, true),
         _ => (0x40, false),
     }
@@ -65,6 +66,44 @@ fn as_path_val(asns: &[u32], two_byte: bool, seg_type: u8) -> Vec<u8> {
     v
 }
 
+/// Type-length-value octets for TUNNEL_ENCAP (23), BGP-LS (29) and PREFIX_SID (40): known code
+/// points, sizes near the ones the second-stage decoders expect, lengths now and then off by one.
+fn tlv_soup(rng: &mut Rng, code: u8) -> Vec<u8> {
+    let mut out = Vec::new();
+    let inner = |rng: &mut Rng, types: &[u16], tw: usize, lw_of: &dyn Fn(u16) -> usize| -> Vec<u8> {
+        let mut b = Vec::new();
+        for _ in 0..rng.range(0, 4) {
+            let t = if rng.chance(1, 8) { rng.below(300) as u16 } else { *rng.pick(types) };
+            let l = if rng.chance(2, 3) { *rng.pick(&[0usize, 1, 2, 3, 4, 6, 7, 8, 16, 18, 21, 22, 24]) } else { rng.below(20) as usize };
+            let v: Vec<u8> = (0..l).map(|_| if rng.chance(1, 3) { 0 } else { rng.next_u32() as u8 }).collect();
+            let wl = (l as i64 + *rng.pick(&[0i64, 0, 0, 0, 0, -1, 1, 2, 100])).max(0) as usize;
+            if tw == 1 {
+                b.push(t as u8);
+            } else {
+                b.extend_from_slice(&t.to_be_bytes());
+            }
+            if lw_of(t) == 1 {
+                b.push(wl.min(255) as u8);
+            } else {
+                b.extend_from_slice(&(wl.min(65535) as u16).to_be_bytes());
+            }
+            b.extend(v);
+        }
+        b
+    };
+    match code {
+        23 => {
+            let subs = inner(rng, &[12, 13, 14, 15, 20, 128, 129, 130, 1, 9], 1, &|t| if t >= 128 { 2 } else { 1 });
+            out.extend_from_slice(&[0, *rng.pick(&[15u8, 15, 8])]);
+            out.extend_from_slice(&(((subs.len() as i64 + *rng.pick(&[0i64, 0, 0, -1, 1])).max(0)) as u16).to_be_bytes());
+            out.extend(subs);
+        }
+        29 => out = inner(rng, &[1024, 1026, 1028, 1029, 1034, 1035, 1036, 1088, 1089, 1090, 1091, 1092, 1095, 1099, 1100, 1114, 1152, 1155, 1158, 1159, 1161, 1170, 1171, 1250, 1252], 2, &|_| 2),
+        _ => out = inner(rng, &[1, 3, 5, 6], 1, &|_| 2),
+    }
+    out
+}
+
 fn v4_nlri_bytes(idx: u64) -> Vec<u8> {
     vec![24, 10, 1, idx as u8]
 }
@@ -99,12 +138,15 @@ impl Check for MalformedUpdates {
                 ops.push(jarr!["good", Json::Arr((0..rng.range(1, 3)).map(|_| Json::from(rng.below(5))).collect())]);
             } else {
                 // which attributes are present besides the mandatory ones
-                let present: Vec<Json> = [4u64, 5, 6, 7, 8, 9, 10, 16, 17, 18, 32].iter().filter(|_| rng.chance(1, 3)).map(|c| Json::from(*c)).collect();
+                let present: Vec<Json> = [4u64, 5, 6, 7, 8, 9, 10, 16, 17, 18, 32, 23, 26, 29, 40].iter().filter(|c| rng.chance(if **c == 23 || **c == 29 || **c == 40 { 2 } else { 1 }, 3)).map(|c| Json::from(*c)).collect();
                 let n_corr = rng.weighted(&[1, 6, 2]);
                 let corr: Vec<Json> = (0..n_corr)
                     .map(|_| {
-                        let target = *rng.pick(&[1u64, 2, 3, 4, 5, 6, 7, 8, 9, 10, 16, 17, 18, 32]);
-                        let kind = *rng.pick(&["len+", "len-", "flags-opt", "flags-trans", "value", "dup", "omit", "cut-block", "unknown-wk", "zero-seg"]);
+                        let target = *rng.pick(&[1u64, 2, 3, 4, 5, 6, 7, 8, 9, 10, 16, 17, 18, 32, 23, 26, 29, 40]);
+                        let mut kind = *rng.pick(&["len+", "len-", "flags-opt", "flags-trans", "value", "dup", "omit", "cut-block", "unknown-wk", "zero-seg"]);
+                        if matches!(target, 23 | 29 | 40) && rng.chance(1, 2) {
+                            kind = "value";
+                        }
                         jarr![target, kind]
                     })
                     .collect();
@@ -133,7 +175,7 @@ impl Check for MalformedUpdates {
 
     fn info(&self) -> CheckInfo {
         CheckInfo {
-            rule: "one neighbour of role eBGP / iBGP / RR client / RS client / confed-eBGP on a 2- or 4-byte-AS session; valid UPDATEs build up older routes; corrupted UPDATEs (legacy reach + withdrawn routes, optionally MP_REACH IPv6) carry any subset of 11 optional attributes and 0-2 corruptions of one attribute each: length +1 / -1, Optional or Transitive flag flipped, bad value, duplicate, omission, attribute block cut short, unrecognised well-known attribute, zero-count AS_PATH segment; sometimes NLRI damage (prefix length 33, truncated prefix). After quiescence: announced prefixes are absent (treat-as-withdraw also removes the older route) or, only for optional non-transitive / AS4_PATH / AS4_AGGREGATOR, present without the faulty attribute; withdrawn prefixes are gone; the session is still up unless the NLRI could not be parsed, in which case a NOTIFICATION was sent; LOCAL_PREF / ORIGINATOR_ID / CLUSTER_LIST from an external peer are not stored. non-trivial = at least one corrupted UPDATE reached an Established session".into(),
+            rule: "one neighbour of role eBGP / iBGP / RR client / RS client / confed-eBGP on a 2- or 4-byte-AS session; valid UPDATEs build up older routes; corrupted UPDATEs (legacy reach + withdrawn routes, optionally MP_REACH IPv6) carry any subset of 15 optional attributes (incl. TUNNEL_ENCAP, AIGP, BGP-LS, PREFIX_SID, which the daemon keeps as opaque octets: only their flags and duplication are corruptible at this level; their content is replaced by type-length-value soups so that what is stored exercises the second-stage decoders when shown) and 0-2 corruptions of one attribute each: length +1 / -1, Optional or Transitive flag flipped, bad value, duplicate, omission, attribute block cut short, unrecognised well-known attribute, zero-count AS_PATH segment; sometimes NLRI damage (prefix length 33, truncated prefix). After quiescence: announced prefixes are absent (treat-as-withdraw also removes the older route) or, only for optional non-transitive / AS4_PATH / AS4_AGGREGATOR, present without the faulty attribute; withdrawn prefixes are gone; the session is still up unless the NLRI could not be parsed, in which case a NOTIFICATION was sent; LOCAL_PREF / ORIGINATOR_ID / CLUSTER_LIST from an external peer are not stored; at every quiescent point the Adj-RIB-In and the global table are listed through the ListPath handler (conversion of every stored attribute to its API form must not panic). non-trivial = at least one corrupted UPDATE reached an Established session".into(),
             components_real: vec!["packet::PeerCodec::{try_parse,parse_message}, Attribute::decode, validate_message/validate_update".into(), "PeerSession::{run_select,rx_msg,rx_update}, TableManager::{insert_route,remove_route}".into()],
             components_stubbed: vec!["TCP, clock, listener loop, the byzantine peer".into()],
             assumptions: vec!["classification of each corruption comes from a table written from the statement (optional non-transitive = MED, ORIGINATOR_ID, CLUSTER_LIST by attribute type, plus AS4_PATH / AS4_AGGREGATOR)".into()],
@@ -210,6 +252,14 @@ async fn run(case: Json, tol: Tolerate) -> Outcome {
             17 => as_path_val(&[4_200_000_000], false, 2),
             18 => vec![0xfa, 0x56, 0xea, 0x00, 10, 0, 0, 1],
             32 => vec![0, 0, 0xfd, 0xe8, 0, 0, 0, 1, 0, 0, 0, 2],
+            // TUNNEL_ENCAP: SR policy (15) with a preference sub-TLV and a segment list holding one type-A segment
+            23 => vec![0, 15, 0, 21, 12, 6, 0, 0, 0, 0, 0, 100, 128, 0, 10, 0, 9, 4, 0, 0, 0x18, 0x6a, 0x00, 1, 6, 0],
+            // AIGP TLV (RFC 7311)
+            26 => vec![1, 0, 11, 0, 0, 0, 0, 0, 0, 0, 100],
+            // BGP-LS attribute: node name TLV 1026
+            29 => vec![0x04, 0x02, 0, 2, b'r', b'1'],
+            // PREFIX_SID: label-index TLV
+            40 => vec![1, 0, 7, 0, 0, 0, 0, 0, 0, 5],
             _ => vec![],
         };
         Tlv { flags, code, val, len: None }
@@ -281,6 +331,8 @@ async fn run(case: Json, tol: Tolerate) -> Outcome {
                         8 | 10 => tlvs[i].val.len() % 4 == 0,
                         16 => tlvs[i].val.len() % 8 == 0,
                         32 => tlvs[i].val.len() % 12 == 0,
+                        // kept as opaque octets: one octet more is still a well-formed attribute
+                        23 | 26 | 29 | 40 => true,
                         _ => false,
                     };
                     if ok_after {
@@ -289,11 +341,22 @@ async fn run(case: Json, tol: Tolerate) -> Outcome {
                 }
                 ("len-", Some(i)) if !tlvs[i].val.is_empty() => {
                     tlvs[i].val.pop();
+                    if matches!(code, 23 | 26 | 29 | 40) {
+                        hit = false; // opaque octets, see len+
+                    }
                 }
                 ("flags-opt", Some(i)) => tlvs[i].flags ^= 0x80,
                 ("flags-trans", Some(i)) => tlvs[i].flags ^= 0x40,
                 ("value", Some(i)) if code == 1 => tlvs[i].val = vec![7],
                 ("value", Some(i)) if code == 2 => tlvs[i].val[0] = 9,
+                ("value", Some(i)) if matches!(code, 23 | 29 | 40) => {
+                    // other octets inside an attribute the UPDATE decoder does not look into: nothing is
+                    // malformed at this level, but the route is shown through the second-stage decoders
+                    let mut r = Rng::new(case.i("sub", 1) as u64 ^ ((opi as u64) << 8) ^ code as u64);
+                    tlvs[i].val = tlv_soup(&mut r, code);
+                    hit = false;
+                    applied.push(format!("tlv-soup-{}", code));
+                }
                 ("zero-seg", Some(i)) if code == 2 => {
                     // AS_PATH ending in a segment with no AS numbers
                     tlvs[i].val.extend_from_slice(&[2, 0]);
@@ -462,6 +525,24 @@ async fn run(case: Json, tol: Tolerate) -> Outcome {
                         }
                     }
                     out.hit("probe.route-kept-with-attribute-discarded");
+                }
+            }
+        }
+        // what was installed can be shown: ListPath (Adj-RIB-In and global table) converts every stored
+        // attribute to its API form, second-stage TLV decoders included; a panic there is caught by the
+        // runner and reported with its site
+        for f in [Family::IPV4, Family::IPV6] {
+            for (tt, name) in [(api::TableType::AdjIn, addr.to_string()), (api::TableType::Global, String::new())] {
+                let req = api::ListPathRequest { table_type: tt as i32, name, family: Some(crate::convert::family_to_api(f)), ..Default::default() };
+                if let Ok(r) = t.w.grpc.list_path(tonic::Request::new(req)).await {
+                    let mut st = r.into_inner();
+                    let mut n = 0u64;
+                    while let Ok(Some(Ok(_))) = tokio::time::timeout(Duration::from_millis(20), st.next()).await {
+                        n += 1;
+                    }
+                    if n > 0 {
+                        out.hit("probe.list-path-displayed-routes");
+                    }
                 }
             }
         }
